@@ -82,6 +82,27 @@ func Render(toks []string, o *RenderOpts) (string, error) {
 			if err != nil {
 				return "", err
 			}
+			// a gap of blank lines is layout: it is filled, in turn, with nothing, with line comments, or with one block
+			// comment that begins on the line before and runs through the gap (line numbers must survive all three)
+			if gap := n - line; gap >= 2 {
+				switch (n + len(toks)) % 3 {
+				case 1:
+					for line < n-1 {
+						b.WriteString("\n// filler")
+						line++
+					}
+				case 2:
+					if !atStart {
+						b.WriteString(" ")
+					}
+					b.WriteString("/* filler")
+					for line < n-1 {
+						b.WriteString("\n *")
+						line++
+					}
+					b.WriteString("/")
+				}
+			}
 			for line < n {
 				b.WriteByte('\n')
 				line++
